@@ -749,4 +749,80 @@ func TestExplore(t *testing.T) {
 		tw.Put(r)
 		rw.Put(res)
 	}
+	if mode == "c12" {
+		// a few directed histories next to the walks: a store that is filled, wiped as a whole and filled again with a
+		// SHORTER chain; a reader of a height above the new head waits for it and is woken when it arrives
+		for k := 0; k < 4; k++ {
+			id := base + runs + k
+			r := refillOnce(t, id, k)
+			tw.Put(r)
+			rw.Put(mbt.Result{ID: id, Key: r.Cfg, NonTriv: true, Verdict: "ok"})
+		}
+	}
+}
+
+func refillOnce(t *testing.T, id, k int) Record {
+	rec0 := Record{Tr: id, Kind: "refill", Readers: []RdrOut{}, Appended: []int{}, HeadSeq: []int{}, HsSeq: []int{}, Stored: []int{}, Missing: []int{},
+		ReturnedBeforeStop: []int{}, Lost: []int{}, RefillEarly: "none", RefillFinal: "none"}
+	n, short := 6+k, 2+k%3
+	want := short + 2
+	rec0.Cfg = fmt.Sprintf("refill: fill 1..%d, wipe, fill 1..%d, read %d, append %d..%d", n, short, want, short+1, want)
+	synctest.Test(t, func(t *testing.T) {
+		chain := vh.NewChain("c", 1, 16, time.Now().Add(-time.Hour), time.Second, 0)
+		st, err := store.NewStore[*vh.Header](rec.New(), store.WithWriteBatchSize([]int{1, 3, 64}[k%3]))
+		if err != nil {
+			return
+		}
+		bg := context.Background()
+		if st.Start(bg) != nil {
+			return
+		}
+		_ = st.Append(bg, chain.Range(1, uint64(n+1))...)
+		_ = st.Sync(bg)
+		if err := st.DeleteRange(bg, 1, uint64(n+1)); err != nil {
+			rec0.RefillFinal = "wipe: " + err.Error()
+			return
+		}
+		_ = st.Append(bg, chain.Range(1, uint64(short+1))...)
+		_ = st.Sync(bg)
+		synctest.Wait()
+		if hd, err := st.Head(bg); err == nil {
+			rec0.Head = int(hd.Height())
+		}
+		rec0.Height = int(st.Height())
+		res := make(chan string, 1)
+		go func() {
+			ctx, cancel := context.WithTimeout(bg, time.Hour)
+			defer cancel()
+			h, err := st.GetByHeight(ctx, uint64(want))
+			switch {
+			case err == nil && h != nil && int(h.Height()) == want && chain.IsCanon(h):
+				res <- "ok"
+			case errors.Is(err, header.ErrNotFound):
+				res <- "notfound"
+			case err != nil:
+				res <- "other:" + err.Error()
+			default:
+				res <- "badheader"
+			}
+		}()
+		synctest.Wait()
+		select {
+		case r := <-res: // it did not wait
+			rec0.RefillEarly, rec0.RefillFinal = r, r
+		default:
+			_ = st.Append(bg, chain.Range(uint64(short+1), uint64(want+1))...)
+			_ = st.Sync(bg)
+			synctest.Wait()
+			select {
+			case r := <-res:
+				rec0.RefillFinal = r
+			default:
+				rec0.RefillFinal = "blocked"
+			}
+		}
+		_ = st.Stop(bg)
+		synctest.Wait()
+	})
+	return rec0
 }
